@@ -546,6 +546,10 @@ def run_refusals(res):
     cases = []
     for bad in (address.GearGroup(1), address.GearBroadcast(), address.DeviceBroadcast(), "3", None, 1.5):
         cases.append((f"write_raw(addr={bad!r})", lambda bad=bad: cls.write_raw(bad, bytes(w)), TypeError))
+    for bad in (w, 1, 0, None, 1.5, True):
+        # a number is no byte string - in particular not "that many zero bytes"
+        cases.append((f"write_raw(raw={bad!r})", lambda bad=bad: cls.write_raw(1, bad), (TypeError, ValueError)))
+        cases.append((f"write_raw(raw={bad!r}, allow_short_write=True)", lambda bad=bad: cls.write_raw(1, bad, allow_short_write=True), (TypeError, ValueError)))
     cases.append(("short write longer than the value", lambda: cls.write_raw(1, bytes(w + 1), allow_short_write=True), ValueError))
     cases.append(("short write much longer", lambda: cls.write_raw(1, bytes(2 * w), allow_short_write=True), ValueError))
     cases.append(("string longer than the field", lambda: cls.write(1, "x" * (w + 1)), ValueError))
@@ -574,9 +578,13 @@ def run_refusals(res):
     for bk in BANKS:
         bank_obj, values = values_of(bk)
         for name, cls, row in values:
-            if not row.writable or name == "LockByte" or not (isinstance(cls, type) and issubclass(cls, loc.NumericValue)):
+            if not row.writable or name == "LockByte" or not isinstance(cls, type):
                 continue
-            for v in odd:
+            numeric = issubclass(cls, loc.NumericValue)
+            # values of the wrong kind altogether: what read() hands back for unreadable contents (the flags), numbers for
+            # text fields, text for numbers
+            wrong_kind = [loc.FlagValue.Invalid, loc.FlagValue.MASK, loc.FlagValue.TMASK, None, b"ab", ["a"], 7 if not numeric else "7", 1.5]
+            for v in (odd if numeric else []) + wrong_kind:
                 unit, other, bank, ob, addr = make_unit(r, bk, r.choice(["gear", "device", "int"]), r.choice([0xFF, 0x55]))
                 before = list(bank.image)
                 bus = Bus([unit, other], bound=400)
